@@ -323,7 +323,7 @@ theorem docHTML_agree (dt : Option Str) (r : Node) (hr : TreeInv r) {n' : Fmt.No
       split <;> rfl
 
 /-- **`parseStr` + `getHTML` of the two plain-parser models agree** on every token list of the domain -/
-theorem plain_html_agree (toks : List Token) (hd : FeedDom toks) :
+theorem plain_html_agree (toks : List Token) (hd : LeadDeclOK toks) :
     Fmt.Plain.html (toks.map tokF) =
       (match feedTokens toks with
        | .doc d _ => (match d.html with | some s => .ok s | none => .error .noRoot)
